@@ -148,7 +148,7 @@ def gen_ops(rng, families, n):
             fam = rng.choice(families)
             kind = rng.choice(["common", "common", "automatic", "automatic-unnamed", "automatic-unnamed", "default"])
             if fam in ("master-page", "page-layout", "font-face"):
-                kind = rng.choice(["common", "font-default"] if fam == "font-face" else ["common"])
+                kind = rng.choice(["common", "font-default"] if fam == "font-face" else ["common", "automatic"])
             if kind == "default" and fam not in DEFAULT_OK:
                 kind = "common"
             if used and rng.random() < 0.3:  # same family+name again / same name in another family
@@ -159,6 +159,8 @@ def gen_ops(rng, families, n):
                     name = oname
             else:
                 name = rng.choice([f"S{i}", f"vf style {i}", f"odfdo_auto_{rng.choice([1, 2, 5, 9, 10, 11])}", f"é{i}"])
+                if fam == "paragraph" and kind == "common" and rng.random() < 0.25:
+                    name = "odfdopagebreak"  # a user style that happens to carry the reserved name
             if kind == "automatic-unnamed":
                 name = None
             ops.append({"op": "insert_style", "family": fam, "kind": kind, "name": name, "as_xml": rng.random() < 0.15, "name_arg": rng.random() < 0.15})
@@ -187,6 +189,8 @@ def make_style(op):
     st = Style(op["family"], name=name, **kw)
     if op["family"] in ("paragraph", "text"):
         st.set_properties({"fo:color": "#123456"}, area="text")
+    if op["family"] == "paragraph" and op["name"] == "odfdopagebreak":
+        st.set_properties({"fo:margin-top": "1cm"}, area="paragraph")
     return st
 
 
